@@ -153,12 +153,14 @@ def dmig_part(run, bulk, np, pd):
     vals_c = {1: 1.5 - 0.5j, 2: 3.0e5j}
     rows_idx = [(100, 1), (100, 3), (200, 0)]
     cols_idx = [(100, 1), (100, 3), (200, 0)]
+    cols_idx2 = [(100, 3), (200, 0), (300, 2)]          # kind "dof2": columns on other DOF than the rows
     dtypes = [np.float32, np.float64, np.complex64, np.complex128]
+    pick = random.Random(run.seed + 13)        # not an index stride: the export order cycles through the column kinds
     for ci, (r, c, kind, form, M, entries) in enumerate(res.tagged("DMIG")):
-        if run.tier == "quick" and ci % 3:
+        if run.tier == "quick" and pick.random() > 0.4:
             continue
         for ti, dt in enumerate(dtypes):
-            if run.tier == "quick" and (ci + ti) % 2:
+            if run.tier == "quick" and pick.random() > 0.5:
                 continue
             cplx = ti >= 2
             vm = vals_c if cplx else vals_r
@@ -168,10 +170,13 @@ def dmig_part(run, bulk, np, pd):
                     if M[i][j]:
                         A[i, j] = vm[M[i][j]]
             ri = pd.MultiIndex.from_tuples(rows_idx[:r], names=["id", "dof"])
-            if kind == "dof":
-                cidx = pd.MultiIndex.from_tuples(cols_idx[:c], names=["id", "dof"])
+            cols_here = cols_idx if kind == "dof" else cols_idx2
+            if kind in ("dof", "dof2"):
+                cidx = pd.MultiIndex.from_tuples(cols_here[:c], names=["id", "dof"])
             else:
-                cidx = pd.Index(list(range(1, c + 1)))
+                # form 9 column numbers need not be 1..n (a matrix read without its null columns, a partition of a larger one)
+                clabels = list(range(1, c + 1)) if (ci + ti) % 2 == 0 else [2, 5, 9][:c]
+                cidx = pd.Index(clabels)
             df = pd.DataFrame(A, index=ri, columns=cidx)
             case = {"M": M, "form": form, "kind": kind, "dtype": str(np.dtype(dt))}
             run.case(("dmig", json.dumps(M), kind, ti), nontrivial=bool(entries), part="dmig form %d" % form)
@@ -194,7 +199,7 @@ def dmig_part(run, bulk, np, pd):
                 if ln.startswith("DMIG*"):
                     cc = cells(ln[8:], 16)
                     g, cdof = int(cc[1]), int(cc[2])
-                    colnow = (cols_idx.index((g, cdof)) + 1) if kind == "dof" else g
+                    colnow = (cols_here.index((g, cdof)) + 1) if kind in ("dof", "dof2") else (clabels.index(g) + 1 if g in clabels else -g)
                 elif ln.startswith("*"):
                     cc = cells(ln[8:], 16)
                     g, d = int(cc[0]), int(cc[1])
@@ -218,10 +223,17 @@ def dmig_part(run, bulk, np, pd):
                 bv = back.values
                 good = bv.shape == exp.shape and np.allclose(bv, exp, rtol=2e-9 if ti % 2 else 2e-7, atol=0)
                 good = good and [tuple(int(v) for v in x) for x in back.index] == [rows_idx[i] for i in keep_r]
-                if kind == "dof":
-                    good = good and [tuple(int(v) for v in x) for x in back.columns] == [cols_idx[j] for j in keep_c]
+                if kind in ("dof", "dof2"):
+                    good = good and [tuple(int(v) for v in x) for x in back.columns] == [cols_here[j] for j in keep_c]
                 else:
-                    good = good and [int(x) for x in back.columns] == [j + 1 for j in keep_c]
+                    good = good and [int(x) for x in back.columns] == [clabels[j] for j in keep_c]
+                if good:
+                    # writing what was read and reading it again changes nothing (labels, order, values)
+                    f2 = io.StringIO()
+                    bulk.wtdmig(f2, {"kmat": back})
+                    again = bulk.rddmig(io.StringIO(f2.getvalue()))["kmat"]
+                    if list(again.index) != list(back.index) or list(again.columns) != list(back.columns) or not np.array_equal(again.values, back.values):
+                        good = False
             except Exception as ex:
                 good = False
             if not good:
